@@ -24,7 +24,8 @@ SP = {"gray": ["gray_color_t"], "rgb": ["red_t", "green_t", "blue_t"], "rgba": [
       "cmyk": ["cyan_t", "magenta_t", "yellow_t", "black_t"]}
 LAYOUT = {"gray": ["gray_layout_t"], "rgb": ["rgb_layout_t", "bgr_layout_t"], "rgba": ["rgba_layout_t", "argb_layout_t", "bgra_layout_t", "abgr_layout_t"], "cmyk": ["cmyk_layout_t"]}
 CH = {"u8": ("std::uint8_t", "std::uint8_t", "int", 8, 0, 255), "u16": ("std::uint16_t", "std::uint16_t", "int", 16, 0, 65535),
-      "f32": ("float32_t", "float", "float", 32, 0.0, 1.0)}
+      "f32": ("float32_t", "float", "float", 32, 0.0, 1.0),
+      "s8": ("std::int8_t", "std::int8_t", "sint", 8, -128, 127)}
 
 
 def conv_wrapper(name, ssp, sch, slay, dsp, dch, dlay, out_colour, same_arg=False):
@@ -49,6 +50,16 @@ def run(rep):
     for ssp, dsp in itertools.product(SP, SP):
         for sch, dch in itertools.product(chans, chans):
             if rep.tier != "thorough" and sch != dch and not (sch == "u8" and dch in ("u16", "f32")) and not (sch in ("u16", "f32") and dch == "u8"):
+                continue
+            for col in SP[dsp]:
+                n += 1
+                nm = "w_cc_%d" % n
+                L.append(conv_wrapper(nm, ssp, sch, LAYOUT[ssp][0], dsp, dch, LAYOUT[dsp][0], col))
+                obl.append((nm, "range", ssp, sch, dsp, dch, col))
+    # signed channel depth (cmyk8s, rgb8s, ... are core typedefs too): same depth and into unsigned 8-bit
+    for ssp, dsp in itertools.product(SP, SP):
+        for sch, dch in (("s8", "s8"), ("s8", "u8")):
+            if ssp == dsp and rep.tier != "thorough":
                 continue
             for col in SP[dsp]:
                 n += 1
@@ -81,6 +92,7 @@ def run(rep):
         s_kind, s_bits, s_lo, s_hi = CH[sch][2:]
         d_lo, d_hi = CH[dch][4], CH[dch][5]
         nin = 1 if kind == "neutral" else len(SP[ssp])
+        s_kind = "int" if s_kind == "sint" else s_kind
         inputs = {"a%d" % i: (s_kind, s_bits, s_lo, s_hi) for i in range(nin)}
         what = "color_convert<%s %s -> %s %s>[%s]" % (ssp, sch, dsp, dch, col)
         rep.count("conversions")
@@ -89,6 +101,8 @@ def run(rep):
             ret = it.run()
             if CH[dch][2] == "int" and ret is not None:
                 ret = it.as_unsigned(ret, {})
+            if CH[dch][2] == "sint" and ret is not None:
+                ret = it.as_signed(ret, {})
         except Unsupported as e:
             rep.fail_analysis("%s: %s" % (what, e))
             continue
@@ -126,6 +140,8 @@ def run(rep):
                     r2 = it2.run()
                     if CH[dch][2] == "int" and r2 is not None:
                         r2 = it2.as_unsigned(r2, {})
+                    if CH[dch][2] == "sint" and r2 is not None:
+                        r2 = it2.as_signed(r2, {})
                 except Unsupported as e:
                     rep.incon("D-endpoint", what + ":" + label, str(e))
                     continue
@@ -148,12 +164,14 @@ def run(rep):
                 key = what + ":luminance"
                 if ret is not None and ret.aff is not None:
                     k = (Fr(d_hi) - Fr(d_lo)) / (Fr(s_hi) - Fr(s_lo))
-                    lo, hi = ret.elo, ret.ehi
+                    # channels are affine images of [0,1]: value v stands for (v - s_lo)/(s_hi - s_lo); for signed channels s_lo != 0
+                    c0 = k * Fr(s_lo) - Fr(d_lo)
+                    lo, hi = ret.elo + c0, ret.ehi + c0
                     for i, c in enumerate(SP["rgb"]):
                         dc = ret.aff.get("a%d" % i, Fr(0)) - WEIGHT[c] * k
                         lo += min(dc * Fr(s_lo), dc * Fr(s_hi))
                         hi += max(dc * Fr(s_lo), dc * Fr(s_hi))
-                    tol = Fr(1) + Fr(1, 1 << 10) if CH[dch][2] == "int" else Fr(1, 1 << 10)
+                    tol = Fr(1) + Fr(1, 1 << 10) if CH[dch][2] in ("int", "sint") else Fr(1, 1 << 10)
                     if set(ret.aff) <= {"a0", "a1", "a2"} and -tol < lo and hi < tol:
                         rep.ok("B-luminance", key, "error in [%s,%s]" % (float(lo), float(hi)))
                     else:
@@ -171,7 +189,9 @@ def run(rep):
                                 continue
                             if r3 is None or r3.top or not r3.is_const():
                                 continue
-                            spec = sum(WEIGHT[c] * k * Fr(v) for c, v in zip(SP["rgb"], corner)) + Fr(d_lo)
+                            if CH[dch][2] == "sint":
+                                r3 = it3.as_signed(r3, {})
+                            spec = sum(WEIGHT[c] * k * (Fr(v) - Fr(s_lo)) for c, v in zip(SP["rgb"], corner)) + Fr(d_lo)
                             if abs(Fr(r3.lo) - spec) >= tol:
                                 refuted = {"input": [str(v) for v in corner], "got": str(r3.lo), "0.30r+0.59g+0.11b": float(spec)}
                                 break
@@ -201,7 +221,7 @@ def run(rep):
                     c = ret.aff.get("a0", Fr(0)) - k
                     lo = min(c * Fr(s_lo), c * Fr(s_hi)) + ret.elo
                     hi = max(c * Fr(s_lo), c * Fr(s_hi)) + ret.ehi
-                    tol = Fr(1) + Fr(1, 1 << 10) if CH[dch][2] == "int" else Fr(1, 1 << 10)
+                    tol = Fr(1) + Fr(1, 1 << 10) if CH[dch][2] in ("int", "sint") else Fr(1, 1 << 10)
                     if -tol < lo and hi < tol:
                         rep.ok("B-neutral", key, "within one unit: [%s,%s]" % (float(lo), float(hi)))
                     else:
